@@ -870,7 +870,9 @@ func runC07Dispatch(c *Ctx) {
 	}
 	// one stream-level context per frame: the codecs and the stream objects are pooled per context, so decoding the next
 	// frame with the previous frame's context overwrites the frame and the stream just handed to the proxy
-	get := callsIn(fn, false, func(cc *ssa.CallCommon) bool { return methodName(cc) == "Get" && len(cc.Args) > 0 && strings.HasSuffix(typeName(cc.Args[0].Type()), "ContextManager") })
+	get := callsIn(fn, false, func(cc *ssa.CallCommon) bool {
+		return methodName(cc) == "Get" && len(cc.Args) > 0 && strings.HasSuffix(typeName(cc.Args[0].Type()), "ContextManager")
+	})
 	fresh := len(get) >= 1
 	for _, gc := range get {
 		_ = gc
@@ -1063,7 +1065,6 @@ func isPureBuiltin(c *ssa.Call) bool {
 	b, ok := c.Call.Value.(*ssa.Builtin)
 	return ok && (b.Name() == "len" || b.Name() == "cap")
 }
-
 
 // otherSucc: the successor of the If that is not blk (the side on which the function continues).
 func otherSucc(ifi *ssa.If, blk *ssa.BasicBlock) *ssa.BasicBlock {
